@@ -7,7 +7,7 @@ Supported subset - anything else fails closed (exit status 2, source location on
   keys = [item.key for item in kvm]                                                            spare key list
   for key, value in custom_metadata.items(): <body>                                            fold over the update dict
   if isinstance(obj, ThriftObject): obj.key_value_metadata = kvm      (or unconditional)       the result
-body statements:  name = expr | if/elif/else | del L[i] | L[i] = expr | L.append(expr)
+body statements:  name = expr | if/elif/else | del L[i] | L[i] = expr | L.append(expr) | pass
 conditions:       X is None | X is not None (X a name: becomes a match that rebinds X to the payload) | a in L | not <cond>
 expressions:      names, ensure_bytes(e), L.index(e), parquet_thrift.KeyValue(key=e[, value=e])
 Python lists are Gallina lists, a KeyValue is the pair (key, optional value), the update dict a list of (pstr, option pstr);
@@ -56,8 +56,8 @@ def block(stmts, env, state, k):
 
     def cont(env2):
         return block(rest, env2, state, k)
-    if isinstance(s, ast.Expr) and isinstance(s.value, ast.Constant):
-        return cont(env)
+    if isinstance(s, ast.Pass) or (isinstance(s, ast.Expr) and isinstance(s.value, ast.Constant)):
+        return cont(env)        # `pass` / a bare constant: a statement that does nothing (a deleted statement is a CHANGED function, not an unknown one)
     if isinstance(s, ast.Assign) and len(s.targets) == 1:
         t, v = s.targets[0], s.value
         if isinstance(t, ast.Name):
